@@ -100,7 +100,7 @@ PROPS["C16"] = {
     "assumptions": [],
 }
 PROPS["C13"] = {
-    "rules": [r_crypto.rule_X1, r_crypto.rule_X2, r_crypto.rule_X3, r_crypto.rule_X4, r_crypto.rule_X5, r_crypto.rule_X6, r_crypto.rule_X7],
+    "rules": [r_crypto.rule_X1, r_crypto.rule_X2, r_crypto.rule_X3, r_crypto.rule_X4, r_crypto.rule_X5, r_crypto.rule_X6, r_crypto.rule_X7, r_crypto.rule_X8],
     "explanation": "The sealing scheme is constants, call identities and dataflow, all decided on every path: X1 KDF/AEAD parameters and that the secret and salt reach the KDF unmodified; X2 AAD layout; X3 seal (fresh nonce filled before use, AAD from the payload's version id, tag appended, envelope layout); X4 unseal (length and exact format-byte checks, slices, AEAD failure is an error, result is the AEAD output); X5 every sink in the three remote backends is fed from seal (or key-derivation metadata) and every returned payload comes from unseal; X6 version-id binding table per backend, writer and reader agree; X7 salt provenance.",
     "not_decided": "that ring implements ChaCha20-Poly1305/PBKDF2 correctly; the exhaustive tamper sweep (follows from AEAD once X2-X4 hold)",
     "assumptions": ["ring's AEAD and PBKDF2 are correct", "reqwest/std::fs/serde_json sinks are the only ways bytes leave the host in these modules (sink table in rules/r_crypto.py)"],
